@@ -1640,6 +1640,20 @@ impl NodeMut for XmlAttr {
             return Err(error::DomException::WrongDocumentErr)?;
         }
 
+        if let XmlNode::ExpandedText(text) = old_child {
+            // A merged text node stands for all of its pieces.
+            let mut pieces = text.data.iter();
+            if let Some(first) = pieces.next() {
+                if self.attribute.borrow().delete(first.id()).is_none() {
+                    return Err(error::DomException::NotFoundErr)?;
+                }
+            }
+            for piece in pieces {
+                self.attribute.borrow().delete(piece.id());
+            }
+            return Ok(old_child.clone());
+        }
+
         match self.attribute.borrow().delete(old_child.id()) {
             Some(v) => Ok(XmlNode::from(v)),
             _ => Err(error::DomException::NotFoundErr)?,
@@ -1944,6 +1958,20 @@ impl NodeMut for XmlElement {
     fn remove_child(&self, old_child: &XmlNode) -> error::Result<XmlNode> {
         if !XmlDocument::same(&self.owner_document(), &old_child.owner_document()) {
             return Err(error::DomException::WrongDocumentErr)?;
+        }
+
+        if let XmlNode::ExpandedText(text) = old_child {
+            // A merged text node stands for all of its pieces.
+            let mut pieces = text.data.iter();
+            if let Some(first) = pieces.next() {
+                if self.element.borrow().delete(first.id()).is_none() {
+                    return Err(error::DomException::NotFoundErr)?;
+                }
+            }
+            for piece in pieces {
+                self.element.borrow().delete(piece.id());
+            }
+            return Ok(old_child.clone());
         }
 
         match self.element.borrow().delete(old_child.id()) {
